@@ -441,3 +441,39 @@ Definition dcsim_judge (case out : list Z) : bool :=
    (component registered with "model": False), the abstract model is related to the monitor by
    DcStreamProofs.monitor_accepts_model *)
 Definition dcsim_run (case : list Z) : list Z := [].
+
+(* ------------------------------------------------------------------------------------------ *)
+(* the monitor applied to the receiver state machine driven alone (component dcrecv)            *)
+(* ------------------------------------------------------------------------------------------ *)
+
+(* output: ops, then (expected_duplicate, code) per packet fed, then -1, then
+   read, correct, dup_changed_state, acks_subset, acked_count, max_data_monotone, eof, total.
+   code: 0 accepted, 1 refused as Duplicate, 2 other error.
+   A packet whose (space, number) was accepted before must be refused as Duplicate; a packet that was
+   not may not be called a duplicate. *)
+Fixpoint recv_pairs_ok (l : list Z) : option (list Z) :=
+  match l with
+  | [] => None
+  | d :: t =>
+      if (d =? -1)%Z then Some t else
+      match t with
+      | [] => None
+      | code :: t' =>
+          if (if (d =? 1)%Z then (code =? 1)%Z else (d =? 0)%Z && ((code =? 0)%Z || (code =? 2)%Z))
+          then recv_pairs_ok t' else None
+      end
+  end.
+
+Definition dcrecv_judge (case out : list Z) : bool :=
+  match out with
+  | [] => false
+  | _ :: rest =>
+      match recv_pairs_ok rest with
+      | Some [rd; correct; dupchg; subset; _acked; mono; eofz; total] =>
+          (correct =? 1)%Z && (dupchg =? 0)%Z && (subset =? 1)%Z && (mono =? 1)%Z &&
+          (0 <=? rd)%Z && (rd <=? total)%Z && (if (eofz =? 1)%Z then (rd =? total)%Z else true)
+      | _ => false
+      end
+  end.
+
+Definition dcrecv_run (case : list Z) : list Z := [].
